@@ -37,7 +37,8 @@ RULE = (
     "that every (x, template, session) and (y, template, session) occurs for every seed, the long read-only template for a "
     "rotating third of the pairs); (2) 'random': seeded histories of 1-15 (quick) / 1-25 (thorough) operations over 2-6 identifiers taken "
     "from one or two families of related names. After every operation the live store and a fresh read-only store are "
-    "compared with the dict model. A step is non-trivial when its target identifier is related (suffix / prefix / "
+    "compared with the dict model; the member objects first handed out by the live store's listings are kept and their "
+    "read() / md5 / names re-read after every later step. A step is non-trivial when its target identifier is related (suffix / prefix / "
     "substring / same id in the other record kind) to another identifier held by the store, or the history has "
     "re-opened the store; distinct = (store class, mode, operation, target context, id-relation class, previous operation)."
 )
@@ -362,6 +363,34 @@ def observe(ds):
     return {"completed": comp, "not_completed": nc, "logs": logs, "validate": val}
 
 
+def observe_held(ds, held):
+    """what the member OBJECTS a client got from the listings say now.
+
+    `held` keeps the first member object seen for every (kind, uid) of this live store object; every step reads
+    read() / .md5 / unique_id / str() / repr() through those same objects again, so anything a member caches at first
+    use is compared with the store after later writes to the same identifier. Returns {kind: [[uid, content, md5]…]}
+    built from the held objects for the members that are listed now, plus a list of identity problems."""
+    out = {}
+    odd = []
+    for K, members in (("completed", list(ds.completed)), ("not_completed", list(ds.not_completed))):
+        listed = set()
+        for m in members:
+            uid = str(m.unique_id)
+            listed.add(uid)
+            held.setdefault((K, uid), m)
+        for key in [k for k in held if k[0] == K and k[1] not in listed]:
+            del held[key]  # the record is gone; a later record of that name is a new member
+        rows = []
+        for (k, uid), m in held.items():
+            if k != K:
+                continue
+            rows.append([uid, m.read(), m.md5])
+            if str(m.unique_id) != uid or str(m) != uid or uid not in repr(m):
+                odd.append([K, uid, str(m.unique_id), str(m), repr(m)])
+        out[K] = sorted(rows)
+    return out, odd
+
+
 # ---------------------------------------------------------------------------
 # comparison: expected observation vs observation -> structural difference classes
 
@@ -516,7 +545,7 @@ def run_history(res, store, ops, tag="h"):
     _install()
     root = tempfile.mkdtemp(prefix="c13-", dir=_scratch_parent())
     A = Adapter(store, root)
-    state = {"live": None}
+    state = {"live": None, "held": {}}
     try:
         _run(res, A, ops, tag, state)
     finally:
@@ -574,6 +603,7 @@ def _run(res, A, ops, tag, state):
             else:
                 raise
         state["live"] = ds
+        state["held"] = {}
         mode = m
         return ds
 
@@ -791,6 +821,40 @@ def _run(res, A, ops, tag, state):
             flagged = True
             cls = ld[0][1] if ld else "order-or-duplicates"
             witness(f"{base}/live-differs-from-fresh/{cls}", i, op, differences=[d[1] for d in ld], got_fresh=fresh, got_live=live)
+        # member objects handed out earlier must still tell the truth (read / md5 / names are not to be cached stale)
+        if not flagged and live is not None:
+            held_view = held_odd = held_exc = None
+            try:
+                held_view, held_odd = observe_held(state["live"], state["held"])
+            except Exception as e:  # noqa: BLE001
+                held_exc = e
+            res.evals += 1
+            res.count(f"held-member-checks:{store}")
+            if kind in ("write", "write_not_completed") and ctx in ("over-completed", "over-not-completed") and not no_change:
+                res.count(f"held-member-rechecked-after-rewrite:{store}")
+            if held_exc is not None:
+                flagged = True
+                if isinstance(held_exc, CacheInvariantError):
+                    witness(f"{base}/invariant/{held_exc}", i, op, got_fresh=fresh)
+                else:
+                    witness(exc_mechanism(f"{base}/held-member", held_exc), i, op, error=repr(held_exc)[:300], got_fresh=fresh)
+            elif held_odd:
+                flagged = True
+                witness(f"{base}/held-member/name-differs-from-listing", i, op, odd=held_odd)
+            else:
+                for K in ("completed", "not_completed"):
+                    if held_view[K] != fresh[K] and not flagged:
+                        flagged = True
+                        want = {r[0]: r for r in fresh[K]}
+                        bad = [r for r in held_view[K] if want.get(r[0]) != r]
+                        what = (
+                            "md5-stale"
+                            if bad and all(want.get(r[0]) and want[r[0]][1] == r[1] for r in bad)
+                            else "content-stale"
+                            if bad
+                            else "membership"
+                        )
+                        witness(f"{base}/held-member/{K}-{what}", i, op, held_member_view=held_view[K], got_fresh=fresh[K])
         if pre_listing is not None:
             res.evals += 1
             post = A.listing()
@@ -1026,6 +1090,8 @@ def required(counters, tier):
     for store in ("dir", "sqlite"):
         if counters.get(f"invariant-evaluations:{store}", 0) == 0:
             need.append(f"icontract invariant on the {store} store was never evaluated")
+        if counters.get(f"held-member-rechecked-after-rewrite:{store}", 0) == 0:
+            need.append(f"{store}: no member object held from an earlier listing was re-read after its record was rewritten")
         for op in ("write", "write_not_completed", "write_log", "drop", "drop_all"):
             for mode in ("r", "a", "w"):
                 if counters.get(f"op:{store}:{op}@{mode}", 0) == 0:
